@@ -184,10 +184,15 @@ func main() {
 	exitOK := map[string]bool{}
 	exitAny := map[string]bool{}
 	for _, o := range all {
-		if o.Vacuity && strings.HasPrefix(o.Name, "canary.") {
-			exitAny[o.Fn] = true
+		if o.Vacuity && (strings.HasPrefix(o.Name, "canary.") || strings.HasPrefix(o.Name, "cover.loop")) {
+			// loops and exits are reached along several paths (also inside inlined callees); some of them can be infeasible
+			key := o.Fn
+			if strings.HasPrefix(o.Name, "cover.loop") {
+				key = o.Fn + "/" + reExit.ReplaceAllString(o.Name, "")
+			}
+			exitAny[key] = true
 			if o.Result == "proved" {
-				exitOK[o.Fn] = true
+				exitOK[key] = true
 			}
 		}
 	}
@@ -196,8 +201,12 @@ func main() {
 			nVac++
 			if o.Result == "proved" {
 				nVacOK++
-			} else if strings.HasPrefix(o.Name, "canary.") {
-				if !exitOK[o.Fn] {
+			} else if strings.HasPrefix(o.Name, "canary.") || strings.HasPrefix(o.Name, "cover.loop") {
+				key := o.Fn
+				if strings.HasPrefix(o.Name, "cover.loop") {
+					key = o.Fn + "/" + reExit.ReplaceAllString(o.Name, "")
+				}
+				if !exitOK[key] {
 					failed = append(failed, o)
 				} else {
 					unreachable = append(unreachable, o.Fn+"/"+o.Name)
